@@ -22,6 +22,7 @@ import (
 
 	"github.com/bloxapp/ssv/message/validation"
 	"github.com/bloxapp/ssv/network/commons"
+	"github.com/bloxapp/ssv/network/peers"
 	"github.com/bloxapp/ssv/network/records"
 	"github.com/bloxapp/ssv/protocol/v2/ssv/queue"
 
@@ -42,7 +43,13 @@ const (
 	eSNIConsume   = "records.SignedNodeInfo.Consume"
 	eSubnetsStr   = "records.Subnets.FromString+String"
 	eSubnetsEntry = "records.GetSubnetsEntry"
+	// the handshake's use of a peer's NodeInfo.Metadata.Subnets, re-composed from its exported parts:
+	// handshaker.updateNodeSubnets (FromString -> SubnetsIndex.UpdatePeerSubnets), then
+	// connHandler.sharesEnoughSubnets / connManager (GetPeerSubnets -> records.SharedSubnets)
+	eHandshakeSubnets = "handshake subnets: FromString->SubnetsIndex.UpdatePeerSubnets->SharedSubnets"
 )
+
+var allSubnets = bytes.Repeat([]byte{1}, 128)
 
 // Case is one evaluation: an entry point, an input, the envelope epoch and a history. It is
 // self-contained and JSON-serialisable: a replay artefact is a Case.
@@ -428,6 +435,25 @@ func (rn *runner) run(c *Case) (res Result, engineErr error) {
 			_ = s.Active()
 			_ = s.Clone()
 			res.Class, res.Beyond = fmt.Sprintf("ok len=%d", len(s)), true
+		}
+	case eHandshakeSubnets:
+		call = func() {
+			s, err := records.Subnets{}.FromString(string(c.data))
+			if err != nil {
+				res.Class = "error: " + errClass(err.Error())
+				return
+			}
+			idx := peers.NewSubnetsIndex(commons.Subnets())
+			idx.UpdatePeerSubnets(peerA, s)
+			ps := idx.GetPeerSubnets(peerA)
+			if len(ps) == 0 {
+				res.Class, res.Beyond = "ok: no subnets recorded for the peer", true
+				return
+			}
+			_ = records.SharedSubnets(allSubnets, ps, 1)               // connHandler.sharesEnoughSubnets
+			_ = records.SharedSubnets(ps, allSubnets, len(allSubnets)) // connManager's peer log
+			_ = idx.GetSubnetsStats()
+			res.Class, res.Beyond = fmt.Sprintf("ok len=%d", len(ps)), true
 		}
 	case eSubnetsEntry:
 		call = func() {
